@@ -232,3 +232,63 @@ pub fn long_bases() -> Vec<(String, String)> {
     }
     out
 }
+
+/// hundredths from kWh written with up to two decimals
+fn h(v: &[f64]) -> Vec<V> {
+    v.iter().map(|x| (x * 100.0).round() as V).collect()
+}
+
+/// COMBO: a layered model of *complete, realistic 12-step buildings*: every slot is one subsystem (absent / present),
+/// so that up to `n` subsystems (20+ lines, 10 systems, 8 carriers, 3 production sources, 2 cogeneration fuels)
+/// interact at once. The series are designed, not arbitrary: relative to the lighting use alone the first PV field runs
+/// through the production/use ratios 0, 0.009, 0.5, 0.97, 1, 1.03, 2 and 25 over the year; at step 9 the sum of three
+/// electricity uses ties exactly with the PV production; the second PV field produces in December only; the CHP runs in
+/// winter only with a fuel profile that is not proportional to its electricity; values carry up to five significant
+/// digits. `n` <= 16 slots (2^n states).
+pub fn combo_slots(n: usize) -> Vec<Vec<Letter>> {
+    let absent = Letter::many(vec![]);
+    let ilu = h(&[120.5, 110.25, 100.0, 100.0, 100.0, 100.0, 100.0, 100.0, 100.0, 100.0, 110.25, 120.5]);
+    let pv1 = h(&[0.0, 1.0, 50.0, 97.0, 100.0, 103.0, 200.0, 2500.0, 182.0, 50.0, 1.5, 0.0]);
+    let hp_el = h(&[40.0, 38.0, 36.0, 30.0, 25.0, 20.0, 18.0, 18.0, 22.0, 30.0, 36.0, 40.0]);
+    let hp_amb = h(&[100.0, 95.0, 90.0, 75.0, 62.5, 50.0, 45.0, 45.0, 55.0, 75.0, 90.0, 100.0]);
+    let nepb_el = h(&[30.0, 30.0, 30.0, 31.7, 30.0, 30.0, 0.0, 0.0, 30.0, 30.0, 30.0, 30.0]);
+    let pv2 = h(&[0.0, 0.0, 0.0, 0.0, 0.0, 0.0, 0.0, 0.0, 0.0, 0.0, 0.0, 77.77]);
+    let chp_el = h(&[60.0, 50.0, 30.0, 0.0, 0.0, 0.0, 0.0, 0.0, 0.0, 20.0, 45.0, 60.0]);
+    let chp_gas = h(&[150.0, 125.0, 75.0, 0.0, 0.0, 0.0, 0.0, 0.0, 0.0, 50.0, 140.0, 150.0]);
+    let chp_bio = h(&[30.0, 25.0, 15.0, 0.0, 0.0, 0.0, 0.0, 0.0, 0.0, 10.0, 22.5, 30.0]);
+    let cal_gas = h(&[500.0, 420.0, 300.0, 120.0, 0.0, 0.0, 0.0, 0.0, 0.0, 150.0, 380.0, 480.0]);
+    let acs_gas = h(&[60.0; 12]);
+    let out_cal = h(&[450.0, 378.0, 270.0, 108.0, 0.0, 0.0, 0.0, 0.0, 0.0, 135.0, 342.0, 432.0]);
+    let out_acs = h(&[54.0; 12]);
+    let aux3 = h(&[12.0, 11.0, 9.0, 5.0, 3.0, 3.0, 3.0, 3.0, 3.0, 6.0, 10.0, 12.0]);
+    let ref_el = h(&[0.0, 0.0, 0.0, 0.0, 20.0, 80.0, 150.0, 140.0, 60.0, 0.0, 0.0, 0.0]);
+    let ref_out = h(&[0.0, 0.0, 0.0, 0.0, -60.0, -240.0, -450.0, -420.0, -180.0, 0.0, 0.0, 0.0]);
+    let ref_aux = h(&[0.0, 0.0, 0.0, 0.0, 1.0, 4.0, 7.0, 7.0, 3.0, 0.0, 0.0, 0.0]);
+    let cal_bio = h(&[200.0, 160.0, 100.0, 30.0, 0.0, 0.0, 0.0, 0.0, 0.0, 40.0, 120.0, 180.0]);
+    let sol_use = h(&[10.0, 14.0, 20.0, 26.0, 30.0, 34.0, 36.0, 34.0, 28.0, 20.0, 12.0, 9.0]);
+    let sol_prod = h(&[5.0, 7.0, 20.0, 30.0, 40.0, 34.0, 36.0, 34.0, 28.0, 10.0, 6.0, 4.0]);
+    let red1 = h(&[80.0, 70.0, 50.0, 20.0, 0.0, 0.0, 0.0, 0.0, 0.0, 25.0, 60.0, 75.0]);
+    let nepb_amb = h(&[5.0; 12]);
+    let amb_surplus = h(&[8.0; 12]);
+    let ven = h(&[15.15; 12]);
+    let dem = h(&[150.0, 150.0, 150.0, 140.0, 130.0, 120.0, 110.0, 110.0, 120.0, 140.0, 150.0, 150.0]);
+    let all: Vec<Letter> = vec![
+        Letter::one(u(Some(0), "ILU", "ELECTRICIDAD", &ilu)),
+        Letter::one(p(Some(10), "EL_INSITU", &pv1)),
+        Letter::many(vec![p(Some(5), "EL_COGEN", &chp_el), u(Some(5), "COGEN", "GASNATURAL", &chp_gas)]),
+        Letter::one(u(Some(0), "NEPB", "ELECTRICIDAD", &nepb_el)),
+        Letter::many(vec![u(Some(2), "ACS", "ELECTRICIDAD", &hp_el), u(Some(2), "ACS", "EAMBIENTE", &hp_amb)]),
+        Letter::one(p(Some(11), "EL_INSITU", &pv2)),
+        Letter::many(vec![u(Some(4), "REF", "ELECTRICIDAD", &ref_el), o(4, "REF", &ref_out), a(Some(4), &ref_aux)]),
+        Letter::one(u(Some(5), "COGEN", "BIOMASA", &chp_bio)),
+        Letter::one(u(Some(3), "CAL", "GASNATURAL", &cal_gas)),
+        Letter::many(vec![u(Some(3), "ACS", "GASNATURAL", &acs_gas), o(3, "CAL", &out_cal), o(3, "ACS", &out_acs), a(Some(3), &aux3)]),
+        Letter::many(vec![u(Some(0), "NEPB", "EAMBIENTE", &nepb_amb), p(Some(9), "EAMBIENTE", &amb_surplus)]),
+        Letter::many(vec![u(Some(7), "ACS", "TERMOSOLAR", &sol_use), p(Some(7), "TERMOSOLAR", &sol_prod)]),
+        Letter::one(u(Some(6), "CAL", "BIOMASA", &cal_bio)),
+        Letter::one(u(Some(8), "CAL", "RED1", &red1)),
+        Letter::one(u(Some(1), "VEN", "ELECTRICIDAD", &ven)),
+        Letter::one(d("ACS", &dem)),
+    ];
+    all.into_iter().take(n).map(|l| vec![absent.clone(), l]).collect()
+}
